@@ -1,5 +1,5 @@
 """C02 — dumping is total: returns, never panics or hangs, never opens /dev (structural clauses, E5)."""
-import json, os
+import json, os, re
 from engine.mir import CalleeView, norm
 from engine.origin import Origin, strip, core, show, root, walk, nosite, is_const, alts
 from engine.paths import Exits, must_pass, conditions, switch_atom, witness_path
@@ -111,6 +111,7 @@ def run(ctx):
     ctx.analysed["panic_sinks"] = st
     ctx.analysed["explicit_panics"] = rule_explicit_panic(ctx, taint)
     ctx.analysed["loops"] = rule_loops(ctx, taint)
+    ctx.analysed["internal_iterations"] = rule_internal_iteration(ctx, taint)
     rule_dev_open(ctx, taint)
     rule_dev_prefix(ctx)
     # classification of the foreign leaves reachable from dump() (the trusted base of the ledgers)
@@ -231,6 +232,104 @@ def precondition_at_callers(ctx, taint, body, atom, val):
     return sites > 0
 
 
+# ------------------------------------------------------------------------------------ iterator finiteness
+# iterators that do NOT terminate by themselves on malformed input: after the first unparsable item goblin's NoteDataIterator
+# keeps its offset and yields the same Err on every call.  They may only be driven by a loop that leaves on an Err item.
+STICKY_ERR_ITER = {"goblin::elf::note::NoteDataIterator": "does not advance past an unparsable note: it yields Err for ever"}
+ITER_ADAPTORS = {"Map": 1, "Filter": 1, "FilterMap": 1, "Flatten": 1, "FlatMap": 1, "Enumerate": 1, "Zip": 2, "Rev": 1, "Skip": 1, "Take": 1, "Chain": 2,
+                 "Peekable": 1, "Copied": 1, "Cloned": 1, "TakeWhile": 1, "SkipWhile": 1, "StepBy": 1, "Fuse": 1, "Inspect": 1, "MapWhile": 1, "Scan": 1}
+FINITE_BASE = ("std::slice::", "std::vec::IntoIter", "std::vec::Drain", "std::ops::Range", "std::str::", "std::fs::ReadDir", "std::io::Lines", "std::collections::",
+               "std::option::", "std::result::", "std::array::IntoIter", "std::char::", "std::path::", "std::env::", "procfs_core::process::MemoryMaps",
+               "std::string::Drain", "std::iter::Once", "std::iter::Empty", "std::ffi::")
+CONSUMERS = {"find", "find_map", "position", "rposition", "any", "all", "count", "last", "nth", "fold", "try_fold", "for_each", "try_for_each", "collect", "sum",
+             "product", "max", "min", "max_by", "max_by_key", "min_by", "min_by_key", "reduce", "partition", "unzip", "eq", "ne", "lt", "le", "gt", "ge", "cmp",
+             "partial_cmp", "extend", "from_iter", "advance_by", "is_sorted"}
+
+
+def split_type(t):
+    """'path<arg, arg>' -> (path, [args]) with nesting respected; leading &/&mut and lifetimes dropped"""
+    t = t.strip()
+    while t.startswith("&"):
+        t = t[1:].strip()
+        if t.startswith("mut "):
+            t = t[4:].strip()
+        if t.startswith("'"):
+            t = t.split(" ", 1)[1].strip() if " " in t else t
+    if "<" not in t:
+        return t, []
+    i = t.index("<")
+    head, rest = t[:i], t[i + 1:t.rindex(">")]
+    args, depth, cur = [], 0, ""
+    for ch in rest:
+        if ch in "<([{":
+            depth += 1
+        elif ch in ">)]}":
+            depth -= 1
+        if ch == "," and depth == 0:
+            args.append(cur.strip())
+            cur = ""
+        else:
+            cur += ch
+    if cur.strip():
+        args.append(cur.strip())
+    return head, [a for a in args if not a.startswith("'")]
+
+
+def iterator_verdict(t, local_finite=()):
+    """('finite', why) | ('sticky', name) | ('unknown', name) for an iterator type string"""
+    head, args = split_type(t)
+    if head.startswith("std::iter::") and head.split("::")[-1] in ITER_ADAPTORS:
+        n = ITER_ADAPTORS[head.split("::")[-1]]
+        for a in args[:n]:
+            v = iterator_verdict(a, local_finite)
+            if v[0] != "finite":
+                return v
+        return ("finite", "adaptor over finite iterators")
+    for k in STICKY_ERR_ITER:
+        if head.startswith(k):
+            return ("sticky", k)
+    if any(head.startswith(p_) for p_ in FINITE_BASE):
+        return ("finite", head)
+    if any(head.startswith(l_) for l_ in local_finite):
+        return ("finite", head)
+    return ("unknown", head)
+
+
+_SELF_OF = re.compile(r"^<(.*) as std::iter::(?:Iterator|DoubleEndedIterator|FromIterator<.*>|Extend<.*>)>::")
+
+
+def rule_internal_iteration(ctx, taint, rule="C02/internal-iteration", scope=None):
+    """consuming iterator methods (find, count, collect, fold ...) loop inside std: their receiver must be a finite iterator"""
+    n = 0
+    local = tuple(k.split(" as ")[0].lstrip("<") for k in LOCAL_FINITE_ITER)
+    for f in sorted(taint.reach):
+        if is_derived(f) or (scope and not scope(f)):
+            continue
+        for b in ctx.prog.by_short.get(f, ()):
+            k = 0
+            for bi, t in b.calls():
+                cv = CalleeView(t["callee"])
+                nm = cv.target or cv.short or ""
+                if lastseg_(nm) not in CONSUMERS or "iter::" not in nm:
+                    continue
+                m = _SELF_OF.match(cv.inst or "")
+                if not m:
+                    continue
+                n += 1
+                k += 1
+                v = iterator_verdict(m.group(1), local)
+                key = (f, "%s#%d" % (lastseg_(nm), k))
+                if v[0] == "finite":
+                    ctx.ok(rule, key, b.where(bi), "%s consumes a finite iterator (%s)" % (lastseg_(nm), m.group(1)[:80]), nontrivial=False)
+                elif v[0] == "sticky":
+                    ctx.violated(rule, key, b.where(bi), "%s() is driven over %s, which %s: on such input the call never returns" % (lastseg_(nm), v[1], STICKY_ERR_ITER[v[1]]))
+                elif re.fullmatch(r"[A-Z][A-Za-z0-9_]*", v[1] or ""):
+                    ctx.ok(rule, key, b.where(bi), "%s on a generic iterator parameter (decided at the instantiations)" % lastseg_(nm), nontrivial=False)
+                else:
+                    ctx.unproven(rule, key, b.where(bi), "%s() consumes an iterator that is not known to be finite: %s" % (lastseg_(nm), v[1]))
+    return n
+
+
 # ------------------------------------------------------------------------------------ loops
 FINITE_ITER = ("std::slice::Iter<", "std::slice::IterMut<", "std::iter::Enumerate<", "std::iter::Map<", "std::iter::Filter<", "std::iter::Chain<",
                "std::vec::IntoIter<", "std::ops::Range<", "std::ops::RangeInclusive<", "std::slice::ChunksExactMut<", "std::slice::ChunksExact<",
@@ -278,8 +377,24 @@ def rule_loops(ctx, taint, rule="C02/unbounded-loop", scope=None):
                             verdict = ("ok", "driven by %s: %s" % (tgt.split("::")[-2] if "::" in tgt else tgt, LOCAL_FINITE_ITER[tgt]))
                         elif any(p in inst for p in FINITE_ITER) or any(p in tgt for p in FINITE_ITER):
                             verdict = ("ok", "driven by a finite std iterator (%s)" % (inst[:70]))
+                        elif any(k_ in inst for k_ in STICKY_ERR_ITER):
+                            # the loop must leave on an Err item: a branch on the item's Result discriminant whose Err side exits the loop
+                            name = next(k_ for k_ in STICKY_ERR_ITER if k_ in inst)
+                            leaves = False
+                            for y in body:
+                                if y == sw or b.term(y)["k"] != "switch":
+                                    continue
+                                a_, _ = switch_atom(b, o, y)
+                                if a_[0] == "discr" and any(q[0] == "call" and lastseg_(q[1]) == "next" and name in q[1] for q in walk(a_[1])):
+                                    errs = [tgt_ for (tgt_, lab) in b.succ_edges(y) if lab[0] == "sw" and lab[1] != 0 and b.term(tgt_)["k"] != "unreachable"]
+                                    if errs and all(tgt_ not in body for tgt_ in errs):
+                                        leaves = True
+                            if leaves:
+                                verdict = ("ok", "driven by %s and left on the first Err item (the iterator %s)" % (name.split("::")[-1], STICKY_ERR_ITER[name]))
+                            else:
+                                verdict = ("violated", "loop over %s does not leave on an Err item, but the iterator %s" % (name, STICKY_ERR_ITER[name]), "%s|sticky" % f)
                         elif "goblin" in inst:
-                            verdict = ("ok", "driven by a goblin iterator over a finite byte slice (%s)" % inst[:60])
+                            verdict = ("unproven", "driven by a goblin iterator whose termination on malformed input is not classified: %s" % inst[:80], "%s|goblin" % f)
                 if verdict is None:
                     verdict = counter_loop(b, o, h, body, latches, taint, f)
                 if verdict is None:
